@@ -19,7 +19,7 @@ struct Key {
 
 struct Sess {
   Key key;
-  uint64_t t_new = 0, last_act = 0, prev_act = 0;   // prev_act: the last activity before the current instant
+  uint64_t t_new = 0, last_act = 0, last_tx = 0, last_rx = 0, prev_rx = 0;   // prev_rx: the last reception before the current instant
   int app_refs = 0;
   int observers = 0;          // libcoap's own registry (observe_added / observe_deleted callbacks)
   int asyncs = 0;
@@ -118,7 +118,7 @@ int on_event(coap_session_t *s, const coap_event_t ev) {
     }
     Sess n;
     n.key = k;
-    n.t_new = n.last_act = n.prev_act = g->w.now();
+    n.t_new = n.last_act = n.last_rx = n.prev_rx = g->w.now();
     g->live[s] = n;
     g->by_key[k] = s;
   } else if (ev == COAP_EVENT_SERVER_SESSION_DEL) {
@@ -131,7 +131,7 @@ int on_event(coap_session_t *s, const coap_event_t ev) {
       std::string h = ss.holders();
       if (!h.empty()) g->res->violate("R8.deleted_while_referenced", h, strfmt("session %s deleted while it is still referred to by: %s", ss.key.str().c_str(), h.c_str()));
       // a datagram delivered in this very instant has not been read yet when the time-out scan of the same step runs
-      uint64_t idle_ns = g->w.now() - (ss.last_act == g->w.now() ? ss.prev_act : ss.last_act);
+      uint64_t idle_ns = g->w.now() - std::max(ss.last_tx, ss.last_rx == g->w.now() ? ss.prev_rx : ss.last_rx);
       if (idle_ns + 2000000ull < (uint64_t)g->timeout_s * 1000000000ull) {
         // not a time-out: only legitimate as eviction of the oldest idle session when a new peer shows up at the limit
         unsigned idle = 0;
@@ -147,7 +147,7 @@ int on_event(coap_session_t *s, const coap_event_t ev) {
           g->last_evict_t = g->w.now();
           g->w.count("probe.evictions");
         }
-      } else g->w.count("probe.timeouts");
+      } else { g->w.count("probe.timeouts"); g->last_evict_t = g->w.now(); }   // (a deletion within the tolerance of the time-out may equally be the eviction)
     }
     for (auto so = g->sub_owner.begin(); so != g->sub_owner.end();) so = so->second == s ? g->sub_owner.erase(so) : std::next(so);
     g->by_key.erase(ss.key);
@@ -310,7 +310,8 @@ struct C12 : Property {
         auto bk = cw.by_key.find(k);
         if (bk == cw.by_key.end()) return;
         Sess &s = cw.live[bk->second];
-        if (e.t_ns > s.last_act) { s.prev_act = s.last_act; s.last_act = e.t_ns; }
+        if (e.t_ns > s.last_rx) { s.prev_rx = s.last_rx; s.last_rx = e.t_ns; }
+        s.last_act = std::max(s.last_tx, s.last_rx);
         r1::Msg m;
         if (r1::decode_udp(e.d->data, m) == r1::ACCEPT && (m.type == 2 || m.type == 3)) s.inflight.erase(m.mid);
       } else if (e.kind == WireEv::SEND && e.from == 0) {
@@ -318,7 +319,8 @@ struct C12 : Property {
         auto bk = cw.by_key.find(k);
         if (bk == cw.by_key.end()) return;
         Sess &s = cw.live[bk->second];
-        if (e.t_ns > s.last_act) { s.prev_act = s.last_act; s.last_act = e.t_ns; }
+        s.last_tx = e.t_ns;
+        s.last_act = std::max(s.last_tx, s.last_rx);
         r1::Msg m;
         if (r1::decode_udp(e.d->data, m) == r1::ACCEPT && m.type == 0) s.inflight.insert(m.mid);
       }
